@@ -202,27 +202,45 @@ theorem idents_unchanged (run rest : List Char) (d : Int × Int) (hne : run ≠ 
     · apply runOut_call; rw [nextIsCallOrSheet_eq, hc]; rfl
   rw [hout]; rfl
 
-/-- **group_covers_ref** (after D11): whatever the master position and whatever the declared range
-    (one row, one column or a two-dimensional block), every cell of the range gets the offset
-    "its position − master position", and every cell outside the range gets none. -/
-theorem group_covers_ref (text : List Char) (ref : Rect) (master pos : Nat × Nat) :
-    (ref.sr ≤ pos.1 ∧ pos.1 ≤ ref.er ∧ ref.sc ≤ pos.2 ∧ pos.2 ≤ ref.ec →
-        (Group.mk text ref master).offsetOf pos
-          = some ((pos.1 : Int) - (master.1 : Int), (pos.2 : Int) - (master.2 : Int)))
-    ∧ (¬ (ref.sr ≤ pos.1 ∧ pos.1 ≤ ref.er ∧ ref.sc ≤ pos.2 ∧ pos.2 ≤ ref.ec) →
-        (Group.mk text ref master).offsetOf pos = none) := by
-  unfold Group.offsetOf Rect.contains
-  constructor
-  · intro ⟨h1, h2, h3, h4⟩
-    simp [h1, h2, h3, h4]
-  · intro h
-    have : (decide (pos.1 ≥ ref.sr) && decide (pos.1 ≤ ref.er) && decide (pos.2 ≥ ref.sc) && decide (pos.2 ≤ ref.ec)) = false := by
-      cases hh : (decide (pos.1 ≥ ref.sr) && decide (pos.1 ≤ ref.er) && decide (pos.2 ≥ ref.sc) && decide (pos.2 ≤ ref.ec)) with
-      | false => rfl
-      | true =>
-        simp only [Bool.and_eq_true, decide_eq_true_eq, ge_iff_le] at hh
-        exact absurd ⟨hh.1.1.1, hh.1.1.2, hh.1.2, hh.2⟩ h
-    simp [this]
+/-- **group_covers_ref** (after D11), against a description that does not mention the code's
+    `Dimensions::contains`: for every master position `(mr, mc)`, every declared rectangle
+    `(sr, sc)–(er, ec)` and every cell `(r, c)` of the sheet,
+    * the cell gets an offset iff `sr ≤ r ≤ er` and `sc ≤ c ≤ ec`,
+    * and the offset it gets is `(r − mr, c − mc)`; outside the rectangle it gets none. -/
+theorem group_covers_ref (text : List Char) (sr sc er ec mr mc r c : Nat) :
+    let g : Group := ⟨text, ⟨sr, sc, er, ec⟩, (mr, mc)⟩
+    (g.offsetOf (r, c) = some ((r : Int) - (mr : Int), (c : Int) - (mc : Int))
+        ↔ (sr ≤ r ∧ r ≤ er ∧ sc ≤ c ∧ c ≤ ec))
+    ∧ (g.offsetOf (r, c) = none ↔ ¬ (sr ≤ r ∧ r ≤ er ∧ sc ≤ c ∧ c ≤ ec))
+    ∧ (∀ o, g.offsetOf (r, c) = some o → o = ((r : Int) - (mr : Int), (c : Int) - (mc : Int))) := by
+  intro g
+  by_cases h : sr ≤ r ∧ r ≤ er ∧ sc ≤ c ∧ c ≤ ec
+  · have e : g.offsetOf (r, c) = some ((r : Int) - (mr : Int), (c : Int) - (mc : Int)) := by
+      obtain ⟨h1, h2, h3, h4⟩ := h
+      simp [g, Group.offsetOf, Rect.contains, h1, h2, h3, h4]
+    refine ⟨⟨fun _ => h, fun _ => e⟩, ⟨fun hn => ?_, fun hn => absurd h hn⟩, ?_⟩
+    · rw [e] at hn; cases hn
+    · intro o ho; rw [e] at ho; cases ho; rfl
+  · have e : g.offsetOf (r, c) = none := by
+      have : (decide (r ≥ sr) && decide (r ≤ er) && decide (c ≥ sc) && decide (c ≤ ec)) = false := by
+        cases hh : (decide (r ≥ sr) && decide (r ≤ er) && decide (c ≥ sc) && decide (c ≤ ec)) with
+        | false => rfl
+        | true =>
+          simp only [Bool.and_eq_true, decide_eq_true_eq, ge_iff_le] at hh
+          exact absurd ⟨hh.1.1.1, hh.1.1.2, hh.1.2, hh.2⟩ h
+      simp [g, Group.offsetOf, Rect.contains, this]
+    refine ⟨⟨fun hs => ?_, fun hh => absurd hh h⟩, ⟨fun _ => h, fun _ => e⟩, ?_⟩
+    · rw [e] at hs; cases hs
+    · intro o ho; rw [e] at ho; cases ho
+
+/-- the same by enumeration: the cell `i` rows and `j` columns from the top-left corner of a
+    declared range of height `h` and width `w` (`h = 1`: a row, `w = 1`: a column, otherwise a block)
+    has the offset "its position − master position", whatever the master position -/
+theorem group_covers_ref_enum (text : List Char) (sr sc h w mr mc i j : Nat) (hi : i < h) (hj : j < w) :
+    (Group.mk text ⟨sr, sc, sr + (h - 1), sc + (w - 1)⟩ (mr, mc)).offsetOf (sr + i, sc + j)
+      = some (((sr + i : Nat) : Int) - (mr : Int), ((sc + j : Nat) : Int) - (mc : Int)) :=
+  ((group_covers_ref text sr sc (sr + (h - 1)) (sc + (w - 1)) mr mc (sr + i) (sc + j)).1).mpr
+    ⟨by omega, by omega, by omega, by omega⟩
 
 /-- storing the masters of a list of groups -/
 def storeAll (t : Table) (defs : List (Nat × Group)) : Table :=
@@ -274,6 +292,15 @@ theorem si_any_order_perm (t : Table) (defs defs' : List (Nat × Group)) (hp : d
     (storeAll t defs').lookup si = (storeAll t defs).lookup si := by
   rw [si_any_order t defs hd si g hm,
     si_any_order t defs' ((hp.map Prod.fst).nodup_iff.mp hd) si g (hp.mem_iff.mp hm)]
+
+/-- **master_formula**: the master cell of a group reports its own formula text, and from then on
+    the group is found under its `si` (with its declared range and the master's position). -/
+theorem master_formula (t : Table) (pos : Nat × Nat) (text : List Char) (si : Nat) (ref : Rect) :
+    ∃ t', cellFormula t ⟨pos, some (text, some ⟨some si, some ref⟩)⟩ = .ok (t', text)
+      ∧ t'.lookup si = some ⟨text, ref, pos⟩
+      ∧ ∀ sj, sj ≠ si → t'.lookup sj = t.lookup sj :=
+  ⟨t.store si ⟨text, ref, pos⟩, rfl, Table.lookup_store_same _ _ _,
+    fun sj h => Table.lookup_store_ne t sj si _ h⟩
 
 /-- **non_members_unaffected**: a cell without formula has none, a cell with a formula of its own
     keeps it, a cell that names a group but lies outside the group's declared range (or names an
@@ -460,6 +487,180 @@ theorem ref_attribute_roundtrip (p q : Nat × Nat) (hp : p.2 < 16384) (hq : q.2 
   · unfold getDimension
     rw [splitColon_none _ (a1_no_colon p hp)]
     simp only [getRowColumn_a1 p hp]
+
+/-! ### the whole sheet, exactly
+
+    A description of what `worksheet_formula` must return that does not mention the table of groups:
+    the group a follower belongs to is found by looking back through the cells written before it. -/
+
+/-- the group `si` as declared by the last master with that `si` among the cells `before` -/
+def lastMaster (before : List CellIn) (si : Nat) : Option Group :=
+  before.reverse.findSome? fun c =>
+    match c.f with
+    | some (text, some ⟨some sj, some ref⟩) => if sj = si then some ⟨text, ref, c.pos⟩ else none
+    | _ => none
+
+/-- the translated text (total: `replace_cell_names` never fails, `replace_never_fails`) -/
+def translate (text : List Char) (d : Int × Int) : List Char :=
+  match replaceCellNames text d with
+  | .ok r => r
+  | _ => []
+
+/-- the formula a cell must report, given the cells written before it: nothing without `<f>`; its own
+    text for a plain formula and for a master; for a follower of group `si` the text of the last
+    master of `si` translated by (position − master position) if the cell lies in that master's declared
+    range, and its own text otherwise (no such master, or outside the range) -/
+def specText (before : List CellIn) (c : CellIn) : List Char :=
+  match c.f with
+  | none => []
+  | some (text, none) => text
+  | some (text, some ⟨_, some _⟩) => text
+  | some (text, some ⟨none, none⟩) => text
+  | some (text, some ⟨some si, none⟩) =>
+    match lastMaster before si with
+    | some g =>
+      if g.ref.sr ≤ c.pos.1 ∧ c.pos.1 ≤ g.ref.er ∧ g.ref.sc ≤ c.pos.2 ∧ c.pos.2 ≤ g.ref.ec then
+        translate g.text ((c.pos.1 : Int) - (g.master.1 : Int), (c.pos.2 : Int) - (g.master.2 : Int))
+      else text
+    | none => text
+
+/-- the list `worksheet_formula` must hand to `Range::from_sparse`: the cells with a non-empty
+    formula, in document order -/
+def specOut : List CellIn → List CellIn → List ((Nat × Nat) × List Char)
+  | _, [] => []
+  | before, c :: cs =>
+    (if specText before c = [] then [] else [(c.pos, specText before c)]) ++ specOut (before ++ [c]) cs
+
+/-- every `t="shared"` formula carries a numeric `si` (otherwise the reader returns an error) -/
+def hasSi (c : CellIn) : Prop :=
+  ∀ text ref, c.f ≠ some (text, some ⟨none, ref⟩)
+
+theorem lastMaster_snoc (before : List CellIn) (c : CellIn) (si : Nat) :
+    lastMaster (before ++ [c]) si =
+      match c.f with
+      | some (text, some ⟨some sj, some ref⟩) => if sj = si then some ⟨text, ref, c.pos⟩ else lastMaster before si
+      | _ => lastMaster before si := by
+  unfold lastMaster
+  rw [List.reverse_append]
+  simp only [List.reverse_cons, List.reverse_nil, List.nil_append, List.cons_append, List.findSome?_cons]
+  obtain ⟨pos, f⟩ := c
+  cases f with
+  | none => rfl
+  | some p =>
+    obtain ⟨text, sh⟩ := p
+    cases sh with
+    | none => rfl
+    | some a =>
+      obtain ⟨osi, oref⟩ := a
+      cases osi with
+      | none => rfl
+      | some sj =>
+        cases oref with
+        | none => rfl
+        | some ref =>
+          simp only
+          by_cases h : sj = si
+          · simp [h]
+          · simp [h]
+
+/-- one cell: the model of `next_formula` computes `specText`, and keeps the table equal to "last
+    master per `si`" -/
+theorem cellFormula_spec (t : Table) (before : List CellIn) (c : CellIn) (hsi : hasSi c)
+    (hinv : ∀ si, t.lookup si = lastMaster before si) :
+    ∃ t', cellFormula t c = .ok (t', specText before c) ∧ ∀ si, t'.lookup si = lastMaster (before ++ [c]) si := by
+  obtain ⟨pos, f⟩ := c
+  cases f with
+  | none => exact ⟨t, rfl, fun si => by rw [lastMaster_snoc]; exact hinv si⟩
+  | some p =>
+    obtain ⟨text, sh⟩ := p
+    cases sh with
+    | none => exact ⟨t, rfl, fun si => by rw [lastMaster_snoc]; exact hinv si⟩
+    | some a =>
+      obtain ⟨osi, oref⟩ := a
+      cases osi with
+      | none => exact absurd rfl (hsi text oref)
+      | some sj =>
+        cases oref with
+        | some ref =>
+          refine ⟨t.store sj ⟨text, ref, pos⟩, rfl, fun si => ?_⟩
+          rw [lastMaster_snoc]
+          simp only
+          by_cases h : sj = si
+          · subst h; simp [Table.lookup_store_same]
+          · rw [if_neg h, Table.lookup_store_ne _ _ _ _ (fun e => h e.symm)]; exact hinv si
+        | none =>
+          refine ⟨t, ?_, fun si => by rw [lastMaster_snoc]; exact hinv si⟩
+          simp only [cellFormula, specText, hinv sj]
+          cases hl : lastMaster before sj with
+          | none => rfl
+          | some g =>
+            simp only [Group.offsetOf, Rect.contains]
+            by_cases hin : g.ref.sr ≤ pos.1 ∧ pos.1 ≤ g.ref.er ∧ g.ref.sc ≤ pos.2 ∧ pos.2 ≤ g.ref.ec
+            · obtain ⟨h1, h2, h3, h4⟩ := hin
+              simp only [ge_iff_le, h1, h2, h3, h4, decide_true, Bool.and_self, if_true, and_self]
+              obtain ⟨r, hr⟩ := replace_never_fails g.text ((pos.1 : Int) - (g.master.1 : Int), (pos.2 : Int) - (g.master.2 : Int))
+              simp only [hr, translate]
+            · rw [if_neg hin]
+              have : (decide (pos.1 ≥ g.ref.sr) && decide (pos.1 ≤ g.ref.er) && decide (pos.2 ≥ g.ref.sc) && decide (pos.2 ≤ g.ref.ec)) = false := by
+                cases hh : (decide (pos.1 ≥ g.ref.sr) && decide (pos.1 ≤ g.ref.er) && decide (pos.2 ≥ g.ref.sc) && decide (pos.2 ≤ g.ref.ec)) with
+                | false => rfl
+                | true =>
+                  simp only [Bool.and_eq_true, decide_eq_true_eq, ge_iff_le] at hh
+                  exact absurd ⟨hh.1.1.1, hh.1.1.2, hh.1.2, hh.2⟩ hin
+              simp [this]
+
+theorem sheetFormulas_spec (cells before : List CellIn) (t : Table) (hsi : ∀ c ∈ cells, hasSi c)
+    (hinv : ∀ si, t.lookup si = lastMaster before si) :
+    sheetFormulas t cells = .ok (specOut before cells) := by
+  induction cells generalizing before t with
+  | nil => rfl
+  | cons c cs ih =>
+    obtain ⟨t', h1, h2⟩ := cellFormula_spec t before c (hsi c (by simp)) hinv
+    simp only [sheetFormulas, h1, ih (before ++ [c]) t' (fun x hx => hsi x (by simp [hx])) h2, specOut]
+    split <;> simp [*]
+
+/-- **sheet_formulas_exact**: on every sheet whose shared formulas carry an `si`, the list
+    `worksheet_formula` builds is *exactly* `specOut [] cells` — every cell with a non-empty expected
+    formula appears once, with that formula, in document order, and nothing else appears: masters and
+    plain formulas with their own text, members with the translated master, cells outside every
+    group (and cells without `<f>`) unaffected. -/
+theorem sheet_formulas_exact (cells : List CellIn) (hsi : ∀ c ∈ cells, hasSi c) :
+    sheetFormulas [] cells = .ok (specOut [] cells) :=
+  sheetFormulas_spec cells [] [] hsi (fun _ => rfl)
+
+/-- consequence: a position is reported iff some cell at that position has a non-empty expected formula -/
+theorem specOut_mem (cells before : List CellIn) (p : Nat × Nat) (v : List Char) :
+    (p, v) ∈ specOut before cells ↔
+      ∃ a c b, cells = a ++ c :: b ∧ c.pos = p ∧ specText (before ++ a) c = v ∧ v ≠ [] := by
+  induction cells generalizing before with
+  | nil => simp [specOut]
+  | cons x xs ih =>
+    simp only [specOut, List.mem_append]
+    constructor
+    · intro h
+      rcases h with h | h
+      · split at h
+        · cases h
+        · rename_i hne
+          simp only [List.mem_cons, List.not_mem_nil, or_false, Prod.mk.injEq] at h
+          exact ⟨[], x, xs, rfl, h.1.symm, by simp [h.2], by rw [h.2]; exact hne⟩
+      · obtain ⟨a, c, b, e, hp, hv, hne⟩ := (ih (before ++ [x])).mp h
+        exact ⟨x :: a, c, b, by rw [e]; rfl, hp, by simpa [List.append_assoc] using hv, hne⟩
+    · intro ⟨a, c, b, e, hp, hv, hne⟩
+      cases a with
+      | nil =>
+        simp only [List.nil_append, List.cons.injEq] at e
+        obtain ⟨e1, _⟩ := e
+        subst e1
+        left
+        simp only [List.append_nil] at hv
+        rw [hv, if_neg hne, hp]; simp
+      | cons y ys =>
+        simp only [List.cons_append, List.cons.injEq] at e
+        obtain ⟨e1, e2⟩ := e
+        subst e1
+        right
+        exact (ih (before ++ [x])).mpr ⟨ys, c, b, e2, hp, by simpa [List.append_assoc] using hv, hne⟩
 
 /-! ### non-vacuity: concrete instances meeting the hypotheses -/
 
